@@ -34,4 +34,9 @@ def envOf (H : Bytes → Bytes) (S : Signer.Scheme) (a : Arrival) : Env :=
 
 def provider (H : Bytes → Bytes) (S : Signer.Scheme) (a : Arrival) : Obs := handleBid (envOf H S a)
 
+/-- the node's long-lived components handling one arrival after another: every arrival is judged
+on its own contents (nothing is remembered about the bids, digests or signatures seen before) -/
+def providerSession (H : Bytes → Bytes) (S : Signer.Scheme) (as : List Arrival) : List Obs :=
+  as.map (provider H S)
+
 end MevCommit.ProviderNode
